@@ -271,6 +271,8 @@ type vfE3Result struct {
 	msgs     int // message frames seen (not part of the comparison)
 	hb       int
 	upgraded bool
+	json     []byte    // payload of the last JSON response frame (IDENTIFY / AUTH document)
+	cl       *clientV2 // the connection's client object (white-box reads after the run)
 }
 
 // vfE3RunConn feeds one byte stream to the real tcpServer.Handle (magic + IOLoop) and reports the
@@ -327,6 +329,7 @@ func (v *vfE3Node) RunConn(stream []byte, rnd *vfRand) vfE3Result {
 				res.hb++
 			case len(data) > 0 && data[0] == '{':
 				res.replies = append(res.replies, "JSON")
+				res.json = append([]byte(nil), data...)
 			default:
 				res.replies = append(res.replies, "RESP("+vfHex(data)+")")
 			}
@@ -359,6 +362,7 @@ func (v *vfE3Node) RunConn(stream []byte, rnd *vfRand) vfE3Result {
 		res.end = "eof"
 	}
 	res.upgraded = upgraded
+	res.cl = cl
 	res.conn = "-"
 	if res.end == "eof" && cl != nil {
 		st := "init"
